@@ -309,7 +309,8 @@ fn if_case_primitive_fn<S: HasComponent<Component>>(
         if let token::Value::CommandRef(command_ref) = &token.value() {
             let tag = input.commands_map().get_tag(command_ref);
             if tag == Some(input.state().component().tags.or_tag) && depth == 0 {
-                cases_left_to_skip -= 1;
+                // Saturating: a negative case number never matches, however many cases follow.
+                cases_left_to_skip = cases_left_to_skip.saturating_sub(1);
                 if cases_left_to_skip == 0 {
                     push_branch(
                         input,
@@ -365,7 +366,7 @@ impl error::EndOfInputError for IfCaseEndOfInputError {
             .into(),
             format![
                 "the input ended while skipping case {}",
-                self.total_cases_to_skip + 1 - self.cases_left_to_skip
+                self.total_cases_to_skip - self.cases_left_to_skip + 1
             ]
             .into(),
         ]
